@@ -283,6 +283,24 @@ func c02JarFacts(l *lean) {
 		dflt = compositeFields(fd, "Config")
 	}
 	l.def("policyDefaultConfig", "List String", leanStrList(dflt), dflt)
+	// the server's own request objects: api.go RequestJWTByGet / RequestJWTByPost / createAuthorizationRequest, jar.go createJarRequest / Sign
+	for _, fc := range []struct {
+		name string
+		f    *ast.File
+		fn   string
+	}{
+		{"condsRequestJWTByGet", api, "RequestJWTByGet"},
+		{"condsRequestJWTByPost", api, "RequestJWTByPost"},
+		{"condsCreateAuthorizationRequest", api, "createAuthorizationRequest"},
+		{"condsCreateJarRequest", jarF, "createJarRequest"},
+	} {
+		c := c02Conds(fc.f, fc.fn)
+		l.def(fc.name, "List String", leanStrList(c), c)
+	}
+	l.chain("chainRequestJWTByGet", api, "RequestJWTByGet")
+	l.chain("chainRequestJWTByPost", api, "RequestJWTByPost")
+	l.chain("chainCreateAuthorizationRequest", api, "createAuthorizationRequest")
+	l.chain("chainJarSign", jarF, "Sign")
 	a1 := args(jarF, "Parse", "validate")
 	l.def("jarValidateArgs", "List String", leanStrList(a1), a1)
 	a2 := args(api, "handleAuthorizeRequest", "handleAuthorizeRequestFromHolder")
